@@ -107,6 +107,35 @@ mut("C19", "client-decodes-shifted", RC, "rkyv::from_bytes_unchecked(&inner.set)
 mut("C19", "serialize-drops-versions", AC, "        rkyv::to_bytes::<_, 4096>(&self.state)", "        let mut fresh = OrSWotSet::<NUM_SOURCES>::default();\n        fresh.merge(self.state.clone());\n        let _ = &fresh;\n        let mut stripped = OrSWotSet::<NUM_SOURCES>::default();\n        for (k, ts) in OrSWotSet::<NUM_SOURCES>::default().diff(&self.state).0 { stripped.insert(k, ts); }\n        rkyv::to_bytes::<_, 4096>(&stripped)")
 mut("C19", "last-updated-is-now", RI, "        let last_updated = keyspace.send(LastUpdated).await;", "        let last_updated = self.group.clock().get_time().await;")
 
+CK = "datacake-node/src/clock.rs"
+RCL = "datacake-rpc/src/client.rs"
+RV = "datacake-rpc/src/rkyv_tooling/view.rs"
+RT = "datacake-rpc/src/rkyv_tooling/mod.rs"
+NSV = "datacake-rpc/src/net/server.rs"
+SQ = "datacake-sqlite/src/lib.rs"
+LM = "datacake-lmdb/src/db.rs"
+TU = "datacake-eventual-consistency/src/test_utils.rs"
+# --- C11
+mut("C11", "F12-reverted-get", CK, "                        Err(TimestampError::Overflow) => {\n                            tokio::time::sleep(Duration::from_millis(1)).await;\n                        },", "                        Err(TimestampError::Overflow) => panic!(\"overflow\"),")
+mut("C11", "register-ignored-for-even-nodes", CK, "        if ts.node() == self.node_id {\n            return;\n        }", "        if ts.node() == self.node_id || ts.node() % 2 == 0 {\n            return;\n        }")
+mut("C11", "get-answers-from-stale-copy", CK, "                let _ = tx.send(ts);", "                let _ = tx.send(if ts.counter() % 7 == 3 { HLCTimestamp::from_u64(ts.as_u64() - 256) } else { ts });")
+# --- C12
+mut("C12", "checksum-comparison-removed", RV, "        if expected_checksum != actual_checksum {\n            return Err(InvalidView);\n        }", "        let _ = (expected_checksum, actual_checksum);")
+mut("C12", "F3-reverted", RV, "        if data_bytes.len() < mem::size_of::<T::Archived>() {\n            return Err(InvalidView);\n        }", "")
+mut("C12", "checksum-over-prefix-only", RT, "    let checksum = crc32fast::hash(&buffer);", "    let checksum = crc32fast::hash(&buffer[..buffer.len().min(4096)]);", also=())
+mut("C12", "status-code-lost", NSV, "fn create_bad_request(status: &Status) -> Response<hyper::Body> {", "fn create_bad_request(status: &Status) -> Response<hyper::Body> {\n    let status = &Status::internal(status.message.clone());")
+mut("C12", "to-aligned-drops-third-chunk", "datacake-rpc/src/utils.rs", "    while let Some(buf) = body.data().await {\n        vec.extend_from_slice(&buf?);\n    }", "    let mut n = 0;\n    while let Some(buf) = body.data().await {\n        n += 1;\n        if n != 1 { vec.extend_from_slice(&buf?); }\n    }")
+# --- C14
+mut("C14", "F9-reverted-timeout-only-on-send", RCL, "            Some(duration) => tokio::time::timeout(duration, exchange)\n                .await\n                .map_err(|_| Status::timeout())?,", "            Some(_duration) => exchange.await,")
+mut("C14", "server-runs-handler-twice", NSV, "    handler\n        .try_handle(remote_addr, headers, Body::new(body))\n        .await", "    let bytes = hyper::body::to_bytes(body).await.map_err(Status::internal)?;\n    let _ = handler.try_handle(remote_addr, headers.clone(), Body::from(bytes.clone())).await;\n    handler\n        .try_handle(remote_addr, headers, Body::from(bytes))\n        .await")
+# --- C17
+mut("C17", "sqlite-tombstone-keeps-data", SQ, "ON CONFLICT (keyspace, doc_id) DO UPDATE SET ts = excluded.ts, data = NULL;", "ON CONFLICT (keyspace, doc_id) DO UPDATE SET ts = excluded.ts;")
+mut("C17", "sqlite-F7b-reverted", SQ, "            .map(|id| (keyspace.to_string(), id as i64))\n            .collect::<Vec<_>>();\n        let docs = self", "            .map(|id| (keyspace.to_string(), id))\n            .collect::<Vec<_>>();\n        let docs = self")
+mut("C17", "lmdb-remove-tombstones-deletes-kv", LM, "                meta.delete(&mut txn, &key)?; // Our entry will already be removed.", "                meta.delete(&mut txn, &key)?;\n                _kv.delete(&mut txn, &(key ^ 1))?;")
+mut("C17", "lmdb-put-many-skips-meta-of-last", LM, "            for doc in docs {\n                kv.put(&mut txn, &doc.id(), doc.data())?;\n                meta.put(&mut txn, &doc.id(), &doc.last_updated().as_u64())?;\n            }", "            let n = docs.len();\n            for (i, doc) in docs.into_iter().enumerate() {\n                kv.put(&mut txn, &doc.id(), doc.data())?;\n                if i + 1 < n || n == 1 { meta.put(&mut txn, &doc.id(), &doc.last_updated().as_u64())?; }\n            }")
+mut("C17", "memstore-F7a-reverted", TU, "        let entries = lock.entry(keyspace.to_string()).or_default();\n        for doc in docs {\n            entries.insert(doc.id, (doc.last_updated, true));\n        }", "        if let Some(entries) = lock.get_mut(keyspace) {\n        for doc in docs {\n            entries.insert(doc.id, (doc.last_updated, true));\n        }\n        }")
+mut("C17", "memstore-keyspaces-share-data", TU, "        Ok(self\n            .data\n            .read()\n            .get(keyspace)\n            .and_then(|ks| ks.get(&doc_id).cloned()))", "        Ok(self\n            .data\n            .read()\n            .values()\n            .find_map(|ks| ks.get(&doc_id).cloned()))")
+
 def sh(cmd, **kw):
     return subprocess.run(cmd, shell=True, capture_output=True, text=True, **kw)
 
